@@ -50,8 +50,31 @@ func AllStacks() string {
 	}
 }
 
-// Census parses a full stack dump.
-func Census() []G { return ParseStacks(AllStacks()) }
+// Census parses a full stack dump. When the caller runs inside a synctest bubble, goroutines of
+// OTHER bubbles are left out: an earlier run of this process that was abandoned (it ran out of
+// scheduler steps and its bubble could not end) leaves its goroutines behind, durably blocked;
+// they are not part of this run.
+func Census() []G {
+	all := ParseStacks(AllStacks())
+	self := GoID()
+	own := ""
+	for _, g := range all {
+		if g.ID == self {
+			own = bubbleTag(g.State)
+		}
+	}
+	if own == "" {
+		return all
+	}
+	out := all[:0]
+	for _, g := range all {
+		if g.Bubble && bubbleTag(g.State) != own {
+			continue
+		}
+		out = append(out, g)
+	}
+	return out
+}
 
 // ParseStacks parses the text produced by runtime.Stack(all).
 func ParseStacks(dump string) []G {
@@ -107,8 +130,20 @@ func ParseStacks(dump string) []G {
 // caller, filtered by keep (nil = all).
 func BubbleOthers(self int, keep func(*G) bool) []G {
 	var out []G
-	for _, g := range Census() {
+	all := Census()
+	// the caller's own bubble: goroutines of an earlier bubble of this process that could not end
+	// (a run that was abandoned when it ran out of scheduler steps) are not this run's business
+	own := ""
+	for _, g := range all {
+		if g.ID == self {
+			own = bubbleTag(g.State)
+		}
+	}
+	for _, g := range all {
 		if !g.Bubble || g.ID == self {
+			continue
+		}
+		if own != "" && bubbleTag(g.State) != own {
 			continue
 		}
 		// the bubble's own infrastructure: the goroutine that called
@@ -122,6 +157,19 @@ func BubbleOthers(self int, keep func(*G) bool) []G {
 		out = append(out, g)
 	}
 	return out
+}
+
+// bubbleTag extracts "synctest bubble N" from a goroutine state.
+func bubbleTag(state string) string {
+	i := strings.Index(state, "synctest bubble")
+	if i < 0 {
+		return ""
+	}
+	t := state[i:]
+	if j := strings.IndexAny(t, ",]"); j >= 0 {
+		t = t[:j]
+	}
+	return strings.TrimSpace(t)
 }
 
 // GoID returns the calling goroutine's id.
